@@ -145,9 +145,29 @@ Theorem gen_tree_run_metaepoch_eq c fuel s e : gen_tree_run_metaepoch c fuel s e
 Proof. unfold gen_tree_run_metaepoch, run_metaepoch. dsolve. Qed.
 #[export] Hint Rewrite gen_tree_run_metaepoch_eq : gendrv.
 
+(* joining the level first and being adopted afterwards = being adopted first *)
+Lemma upd_last (f : deme -> deme) : forall ds ch, upd (length (ds ++ [ch]) - 1) f (ds ++ [ch]) = ds ++ [f ch].
+Proof.
+  intros ds ch. rewrite app_length. cbn [length]. replace (length ds + 1 - 1) with (length ds) by lia.
+  induction ds as [|d r IH]; cbn; [reflexivity|now rewrite IH].
+Qed.
+Lemma append_then_adopt {A} l ch p (k : D A) s e :
+  bind (p_append_level l ch) (fun _ => bind (p_adopt_last p) (fun _ => k)) s e = bind (p_append_level l (add_child p ch)) (fun _ => k) s e.
+Proof.
+  unfold bind, p_append_level, p_adopt_last. change (d_lvl (add_child p ch)) with (d_lvl ch). destruct (negb (Nat.eqb l (d_lvl ch))); [reflexivity|].
+  cbn [ms with_ms set_demes with_state demes mcount pc seen steps clock born_after_seen last_round pend]. now rewrite upd_last.
+Qed.
 Lemma sprout_child_eq c fuel it1 target x s e :
   gen_tree__do_sprout_for2 c fuel it1 target x s e = sprout_child (fst it1) target s e.
-Proof. unfold gen_tree__do_sprout_for2, sprout_child. dsolve. Qed.
+Proof.
+  unfold gen_tree__do_sprout_for2, sprout_child. dunf.
+  first [ solve [dsolve]
+        | (* the child joins its level first and is adopted afterwards *)
+          destruct (p_init_from_config _ _ _ s e) as [[[a s'] e']|]; [|reflexivity];
+          unfold p_append_level, p_adopt_last; change (d_lvl (add_child (fst it1) a)) with (d_lvl a);
+          destruct (negb (Nat.eqb _ (d_lvl a))); [reflexivity|];
+          cbn [ms with_ms set_demes with_state demes mcount pc seen steps clock born_after_seen last_round pend]; now rewrite upd_last ].
+Qed.
 Lemma sprout_child_loop c fuel it1 target xs s e :
   for_ xs (gen_tree__do_sprout_for2 c fuel it1 target) s e = for_ xs (fun _ => sprout_child (fst it1) target) s e.
 Proof. apply for_ext. intros. apply sprout_child_eq. Qed.
